@@ -18,6 +18,7 @@ type `MerkleTreeKey`).
 -/
 import FuelVerif.Props.C12
 import FuelVerif.Lemmas.SparseRefineDelete
+import FuelVerif.Lemmas.SparseCollision
 namespace FuelVerif.Smt
 open FuelVerif FuelVerif.SmtStore FuelVerif.SmtBytes FuelVerif.SmtRefine FuelVerif.Gen.Sparse
 
@@ -47,75 +48,173 @@ def AllOk : SMT σ → List (Op Key32 Bytes) → Prop
   | _, [] => True
   | s, op :: ops => storeResult H S s op = .ok () ∧ AllOk (storeStep H S s op) ops
 
+/-- all trees the structural layer goes through during a history started at `t` (the start, every intermediate
+tree, the end) -/
+def treesOf (t : SmtRefine.T) : List (Op Key32 Hash32) → List SmtRefine.T
+  | [] => [t]
+  | op :: ops => t :: treesOf (applyOp bit32 width t op) ops
+
+theorem head_mem_treesOf (t : SmtRefine.T) : ∀ ops, t ∈ treesOf t ops
+  | [] => List.mem_cons_self
+  | _ :: _ => List.mem_cons_self
+
+/-- the class of trees of a history: the non-empty subtrees of the trees it goes through -/
+def histU (hops : List (Op Key32 Hash32)) : SmtRefine.T → Prop :=
+  fun u => ∃ t ∈ treesOf .empty hops, IsSub u t
+
+/-- **the finite list of preimages a history hashes**: for every tree the history goes through, the tagged
+65-byte input `prefix ‖ lo ‖ hi` of each of its nodes (computed with `H` itself). These are exactly the inputs
+on which `H` must not collide for the theorems below; nothing is assumed about `H` elsewhere. -/
+def hashedInputs (hl : ∀ x, (H x).length = keyBytes) (ops : List (Op Key32 Bytes)) : List Bytes :=
+  (treesOf .empty (ops.map (hashOp H hl))).flatMap (treeInputs H hl)
+
+/-- no collision among the hashed inputs of a history ⇒ the tree hash is injective and non-zero on the
+history's class of trees -/
+theorem histHashOn (hl : ∀ x, (H x).length = keyBytes) (ops : List (Op Key32 Bytes))
+    (hnc : NoCollisionOn H (hashedInputs H hl ops)) : HashOn H (histU (ops.map (hashOp H hl))) :=
+  hashOn_of_noCollision H hl _ (hashedInputs H hl ops)
+    (fun _ ⟨_, _, hu⟩ => IsSub.ne_empty hu)
+    (fun _ _ ⟨t', ht', ht⟩ hu => ⟨t', ht', IsSub.trans hu ht⟩)
+    (fun _ ⟨t', ht', hu⟩ => List.mem_flatMap.mpr ⟨t', ht', mem_treeInputs H hl hu⟩)
+    hnc
+
+variable {U : SmtRefine.T → Prop}
+
 /-- **one operation refines**: on a represented state, the transcribed operation returns `Ok` and leaves a
 state representing the structural operation's tree -/
-theorem storeStep_rep (hok : HashOK H) (laws : StoreLaws S) {s : SMT σ} {t : SmtRefine.T}
-    (hr : Rep H hok S s t) (op : Op Key32 Bytes) :
+theorem storeStep_rep (hok : HashOn H U) (laws : StoreLaws S) {s : SMT σ} {t : SmtRefine.T}
+    (hr : Rep H hok S s t) (op : Op Key32 Bytes)
+    (hUn : ∀ u, IsSub u (applyOp bit32 width t (hashOp H hok.len op)) → U u) :
     storeResult H S s op = .ok () ∧
       Rep H hok S (storeStep H S s op) (applyOp bit32 width t (hashOp H hok.len op)) := by
   cases op with
   | ins k d =>
-    obtain ⟨s', h1, h2⟩ := insert_rep H hok S laws hr k d ⟨H d, hok.len d⟩ rfl
+    obtain ⟨s', h1, h2⟩ := insert_rep H hok S laws hr k d ⟨H d, hok.len d⟩ rfl hUn
     simp only [storeResult, storeStep, h1]
     exact ⟨trivial, h2⟩
   | del k =>
-    obtain ⟨s', h1, h2⟩ := delete_rep H hok S laws hr k
+    obtain ⟨s', h1, h2⟩ := delete_rep H hok S laws hr k hUn
     simp only [storeResult, storeStep, h1]
     exact ⟨trivial, h2⟩
 
-theorem storeFold_rep (hok : HashOK H) (laws : StoreLaws S) :
+theorem storeFold_rep (hok : HashOn H U) (laws : StoreLaws S) :
     ∀ (ops : List (Op Key32 Bytes)) (s : SMT σ) (t : SmtRefine.T), Rep H hok S s t →
+      (∀ t' ∈ treesOf t (ops.map (hashOp H hok.len)), ∀ u, IsSub u t' → U u) →
       AllOk H S s ops ∧
         Rep H hok S (ops.foldl (storeStep H S) s)
           ((ops.map (hashOp H hok.len)).foldl (applyOp bit32 width) t)
-  | [], _, _, hr => ⟨trivial, hr⟩
-  | op :: ops, s, t, hr => by
-    obtain ⟨h1, h2⟩ := storeStep_rep H S hok laws hr op
-    obtain ⟨h3, h4⟩ := storeFold_rep hok laws ops _ _ h2
+  | [], _, _, hr, _ => ⟨trivial, hr⟩
+  | op :: ops, s, t, hr, hU => by
+    have hU' : ∀ t' ∈ treesOf (applyOp bit32 width t (hashOp H hok.len op)) (ops.map (hashOp H hok.len)),
+        ∀ u, IsSub u t' → U u := fun t' ht' => hU t' (List.mem_cons_of_mem _ ht')
+    obtain ⟨h1, h2⟩ := storeStep_rep H S hok laws hr op (hU' _ (head_mem_treesOf _ _))
+    obtain ⟨h3, h4⟩ := storeFold_rep hok laws ops _ _ h2 hU'
     exact ⟨⟨h1, h3⟩, h4⟩
 
 /-- `MerkleTree::new` represents the empty tree, whatever the storage holds -/
-theorem new_rep (hok : HashOK H) (st0 : σ) : Rep H hok S (SMT.new st0) .empty := ⟨trivial, rfl, trivial⟩
+theorem new_rep (hok : HashOn H U) (st0 : σ) : Rep H hok S (SMT.new st0) .empty :=
+  ⟨trivial, rfl, trivial, fun _ h => absurd h id⟩
 
-/-- **refinement for every history**: the state the transcribed code reaches represents the structural tree
-of the same history, and no call failed -/
-theorem store_history_rep (hok : HashOK H) (laws : StoreLaws S) (st0 : σ) (ops : List (Op Key32 Bytes)) :
+/-- refinement for every history, relative to a class `U` of trees containing the history's trees -/
+theorem store_history_rep_on (hok : HashOn H U) (laws : StoreLaws S) (st0 : σ) (ops : List (Op Key32 Bytes))
+    (hU : ∀ t' ∈ treesOf .empty (ops.map (hashOp H hok.len)), ∀ u, IsSub u t' → U u) :
     AllOk H S (SMT.new st0) ops ∧
       Rep H hok S (storeRun H S st0 ops) (run bit32 width (ops.map (hashOp H hok.len))) :=
-  storeFold_rep H S hok laws ops _ _ (new_rep H S hok st0)
+  storeFold_rep H S hok laws ops _ _ (new_rep H S hok st0) hU
+
+/-- **refinement for every history, assuming only that `H` does not collide on the history's own hashed
+inputs**: for ANY `H` with 32-byte output, if there is no collision (and no zero-sum preimage) among
+`hashedInputs H ops`, the state the transcribed code reaches represents the structural tree of the same
+history and no call failed -/
+theorem store_history_rep_nc (hl : ∀ x, (H x).length = keyBytes) (laws : StoreLaws S) (st0 : σ)
+    (ops : List (Op Key32 Bytes)) (hnc : NoCollisionOn H (hashedInputs H hl ops)) :
+    AllOk H S (SMT.new st0) ops ∧
+      Rep H (histHashOn H hl ops hnc) S (storeRun H S st0 ops) (run bit32 width (ops.map (hashOp H hl))) :=
+  store_history_rep_on H S (histHashOn H hl ops hnc) laws st0 ops (fun t' ht' u hu => ⟨t', ht', hu⟩)
+
+/-- the idealised form (`HashOK`: no collision anywhere) as a corollary -/
+theorem store_history_rep (hok : HashOK H) (laws : StoreLaws S) (st0 : σ) (ops : List (Op Key32 Bytes)) :
+    AllOk H S (SMT.new st0) ops ∧
+      Rep H hok.toOn S (storeRun H S st0 ops) (run bit32 width (ops.map (hashOp H hok.len))) :=
+  store_history_rep_on H S hok.toOn laws st0 ops (fun _ _ _ _ => trivial)
 
 /-- the root of a represented state is the structural root -/
-theorem rep_rootHash (hok : HashOK H) {s : SMT σ} {t : SmtRefine.T} (hr : Rep H hok S s t) :
+theorem rep_rootHash (hok : HashOn H U) {s : SMT σ} {t : SmtRefine.T} (hr : Rep H hok S s t) :
     s.rootHash = (t.hash (hashes32 H hok.len)).val := by
   rw [SMT.rootHash, hr.root, nodeOf_hash]
   rfl
 
-/-- **C12, history clause, on the transcribed Rust algorithm.** For every history of inserts / overwrites /
-deletes run by the transcribed `MerkleTree::insert` / `delete` from `MerkleTree::new` over any storage, every
-call returns `Ok`, and for EVERY duplicate-free listing `L` of the key ↦ `sum(value)` map the history leaves
-behind, `MerkleTree::root()` is the compact sparse Merkle root of `L` over the 256 key bits with the
-statement's hash constructors (`SmtBytes.hashes_match_statement`). -/
+/-- **C12, history clause, on the transcribed Rust algorithm, NON-VACUOUS form.** For ANY function `H` with
+32-byte output (no injectivity assumed), any lawful node table, any initial storage and any history run by the
+transcribed `MerkleTree::insert` / `delete`: if `H` has no collision and no zero-sum preimage among the finitely
+many tagged inputs the history itself hashes (`hashedInputs H ops`), then every call returns `Ok` and, for EVERY
+duplicate-free listing `L` of the key ↦ `sum(value)` map the history leaves behind, `MerkleTree::root()` is the
+compact sparse Merkle root of `L`. -/
+theorem store_root_history_nc (hl : ∀ x, (H x).length = keyBytes) (laws : StoreLaws S) (st0 : σ)
+    (ops : List (Op Key32 Bytes)) (hnc : NoCollisionOn H (hashedInputs H hl ops))
+    (L : List (Key32 × Hash32)) (hL : KeysNodup L)
+    (hag : ∀ q, lookup q L = finalMap (ops.map (hashOp H hl)) q) :
+    AllOk H S (SMT.new st0) ops ∧
+      (specRoot bit32 (hashes32 H hl) 256 0 L).map Subtype.val =
+        some (storeRun H S st0 ops).rootHash := by
+  obtain ⟨h1, h2⟩ := store_history_rep_nc H S hl laws st0 ops hnc
+  refine ⟨h1, ?_⟩
+  have h3 := root_history bit32 width keyExt_bytes (hashes32 H hl) _ L hL hag
+  rw [width_eq] at h3
+  rw [h3, rep_rootHash H S _ h2]
+  rfl
+
+/-- **collision-extraction form**: EITHER the root of the transcribed algorithm is the compact sparse Merkle
+root of the final map (and all calls returned `Ok`), OR there is an explicit collision among the inputs the
+history hashed: two different members of `hashedInputs H ops` with the same hash, or one hashing to the zero
+sum -/
+theorem store_root_history_or_collision (hl : ∀ x, (H x).length = keyBytes) (laws : StoreLaws S) (st0 : σ)
+    (ops : List (Op Key32 Bytes)) (L : List (Key32 × Hash32)) (hL : KeysNodup L)
+    (hag : ∀ q, lookup q L = finalMap (ops.map (hashOp H hl)) q) :
+    (AllOk H S (SMT.new st0) ops ∧
+      (specRoot bit32 (hashes32 H hl) 256 0 L).map Subtype.val = some (storeRun H S st0 ops).rootHash) ∨
+    Collision H (hashedInputs H hl ops) :=
+  or_collision (fun hnc => store_root_history_nc H S hl laws st0 ops hnc L hL hag)
+
+/-- `HashOK` excludes every collision, in particular on the hashed inputs (all of them are tagged 65-byte
+strings) -/
+theorem noCollision_of_hashOK (hok : HashOK H) (ops : List (Op Key32 Bytes)) :
+    NoCollisionOn H (hashedInputs H hok.len ops) := by
+  have hlen : ∀ x ∈ hashedInputs H hok.len ops, x.length = 1 + 2 * keyBytes := by
+    intro x hx
+    obtain ⟨t, _, hx⟩ := List.mem_flatMap.mp hx
+    obtain ⟨u, hu, e⟩ := List.mem_map.mp hx
+    rw [← e]
+    exact inputOf_length H hok.len (IsSub.ne_empty (mem_subtrees.mp hu))
+  exact ⟨fun x hx y hy e => hok.inj x y (hlen x hx) (hlen y hy) e, fun x hx => hok.nonzero x (hlen x hx)⟩
+
+/-- **C12, history clause, idealised form** (corollary of `store_root_history_nc`: `HashOK` ⇒ no collision on
+the hashed inputs). -/
 theorem store_root_history (hok : HashOK H) (laws : StoreLaws S) (st0 : σ) (ops : List (Op Key32 Bytes))
     (L : List (Key32 × Hash32)) (hL : KeysNodup L)
     (hag : ∀ q, lookup q L = finalMap (ops.map (hashOp H hok.len)) q) :
     AllOk H S (SMT.new st0) ops ∧
       (specRoot bit32 (hashes32 H hok.len) 256 0 L).map Subtype.val =
-        some (storeRun H S st0 ops).rootHash := by
-  obtain ⟨h1, h2⟩ := store_history_rep H S hok laws st0 ops
-  refine ⟨h1, ?_⟩
-  have h3 := root_history bit32 width keyExt_bytes (hashes32 H hok.len) _ L hL hag
-  rw [width_eq] at h3
-  rw [h3, rep_rootHash H S hok h2]
-  rfl
+        some (storeRun H S st0 ops).rootHash :=
+  store_root_history_nc H S hok.len laws st0 ops (noCollision_of_hashOK H hok ops) L hL hag
 
-/-- the root computed by the transcribed code depends only on the final key ↦ `sum(value)` map -/
+/-- the root computed by the transcribed code depends only on the final key ↦ `sum(value)` map (no collision on
+the hashed inputs of either history) -/
+theorem store_root_depends_only_on_map_nc (hl : ∀ x, (H x).length = keyBytes) (laws : StoreLaws S)
+    (st0 st0' : σ) (ops₁ ops₂ : List (Op Key32 Bytes))
+    (h1 : NoCollisionOn H (hashedInputs H hl ops₁)) (h2 : NoCollisionOn H (hashedInputs H hl ops₂))
+    (h : ∀ q, finalMap (ops₁.map (hashOp H hl)) q = finalMap (ops₂.map (hashOp H hl)) q) :
+    (storeRun H S st0 ops₁).rootHash = (storeRun H S st0' ops₂).rootHash := by
+  rw [rep_rootHash H S _ (store_history_rep_nc H S hl laws st0 ops₁ h1).2,
+    rep_rootHash H S _ (store_history_rep_nc H S hl laws st0' ops₂ h2).2,
+    tree_depends_only_on_map bit32 width keyExt_bytes _ _ h]
+
 theorem store_root_depends_only_on_map (hok : HashOK H) (laws : StoreLaws S) (st0 st0' : σ)
     (ops₁ ops₂ : List (Op Key32 Bytes))
     (h : ∀ q, finalMap (ops₁.map (hashOp H hok.len)) q = finalMap (ops₂.map (hashOp H hok.len)) q) :
-    (storeRun H S st0 ops₁).rootHash = (storeRun H S st0' ops₂).rootHash := by
-  rw [rep_rootHash H S hok (store_history_rep H S hok laws st0 ops₁).2,
-    rep_rootHash H S hok (store_history_rep H S hok laws st0' ops₂).2,
-    tree_depends_only_on_map bit32 width keyExt_bytes _ _ h]
+    (storeRun H S st0 ops₁).rootHash = (storeRun H S st0' ops₂).rootHash :=
+  store_root_depends_only_on_map_nc H S hok.len laws st0 st0' ops₁ ops₂
+    (noCollision_of_hashOK H hok ops₁) (noCollision_of_hashOK H hok ops₂) h
 
 /-! ### the order of effects the refinement relies on (extracted from the Rust text by `tools/gen/sparse.py`)
 
